@@ -225,6 +225,8 @@ def mjw_contacts(d, world=0):
     geom=c.geom.numpy()[:n],
     efc_address=c.efc_address.numpy()[:n],
   )
+  if hasattr(c, "type"):
+    f["type"] = c.type.numpy()[:n]
   out = []
   for i in sel:
     out.append({k: np.array(v[i], dtype=np.float64 if v.dtype.kind == "f" else v.dtype) for k, v in f.items()} | {"index": int(i)})
